@@ -187,11 +187,15 @@ bool muggle_memory_pool_ensure_space(muggle_memory_pool_t* pool, uint32_t capaci
 		free_section2 = (void**)&pool->memory_pool_ptr_buf[0];
 		num_free_section2 = pool->free_index;
 	}
-	else if (pool->alloc_index > pool->free_index)
+	else if (pool->alloc_index >= pool->free_index)
 	{
 		/*
 		*           f           m
 		*  [0] [0] [x] [x] [x] [0] [0] [0] [0] [0] [0] [0]
+		*
+		*                      or (no block in use)
+		*          fm
+		*  [0] [0] [0] [0] [0] [0] [0] [0] [0] [0] [0] [0]
 		*/
 		free_section1 = (void**)&pool->memory_pool_ptr_buf[pool->free_index];
 		num_free_section1 = pool->alloc_index - pool->free_index;
@@ -207,10 +211,6 @@ bool muggle_memory_pool_ensure_space(muggle_memory_pool_t* pool, uint32_t capaci
 		/*
 		*           m           f
 		*  [x] [x] [0] [0] [0] [x] [x] [x] [x] [x] [x] [x]
-		*
-		*                      or
-		*          fm
-		*  [0] [0] [0] [0] [0] [0] [0] [0] [0] [0] [0] [0]
 		*/
 		free_section1 = (void**)&pool->memory_pool_ptr_buf[pool->free_index];
 		num_free_section1 = pool->capacity - pool->free_index;
